@@ -644,6 +644,7 @@ func (c *ctxT) concurrent(cfg cfgT, rnd *common.Rand, nG, nK int, caseNo int) {
 	if err != nil {
 		panic(err)
 	}
+	defer rs.In.Close() // ends a Serve started below
 	type job struct {
 		cl  call
 		mk  string
@@ -690,8 +691,58 @@ func (c *ctxT) concurrent(cfg cfgT, rnd *common.Rand, nG, nK int, caseNo int) {
 		time.Sleep(time.Duration(50+len(point)) * time.Microsecond)
 	})
 	defer xmpp.VerifSetYield(nil)
+	// handler replies written by Serve while the other goroutines transmit
+	var replies []job
+	if caseNo%2 == 1 {
+		nR := 1 + rnd.Intn(5)
+		for k := 0; k < nR; k++ {
+			big := 0
+			if rnd.Chance(1, 2) {
+				big = 3000 + rnd.Intn(9000)
+			}
+			mk := fmt.Sprintf("m-%d-%d", nG, k)
+			cl := withMarker(call{entry: "reply", form: "reader", toks: genElement(rnd, 0, true, big)}, mk)
+			j := job{cl: cl, mk: mk, idx: len(all)}
+			all = append(all, j)
+			replies = append(replies, j)
+		}
+	}
 	statuses := make([]string, len(all))
 	var wg sync.WaitGroup
+	if len(replies) > 0 {
+		n := 0
+		synced := make(chan struct{})
+		go rs.S.Serve(xmpp.HandlerFunc(func(t xmlstream.TokenReadEncoder, start *xml.StartElement) error {
+			k := n
+			n++
+			if k >= len(replies) {
+				if k == len(replies) {
+					close(synced)
+				}
+				return nil
+			}
+			st := "ok"
+			for _, tok := range replies[k].cl.toks {
+				if err := t.EncodeToken(xml.CopyToken(tok)); err != nil {
+					st = classify(err)
+					break
+				}
+			}
+			statuses[replies[k].idx] = st
+			return nil
+		}))
+		wg.Add(1)
+		go func() {
+			defer wg.Done()
+			for k := 0; k <= len(replies); k++ {
+				rs.Feed([]byte(fmt.Sprintf(`<message xmlns="%s" id="in%d"/>`, cfg.ns, k)))
+			}
+			select {
+			case <-synced:
+			case <-time.After(30 * time.Second):
+			}
+		}()
+	}
 	for g := 0; g < nG; g++ {
 		wg.Add(1)
 		go func(g int) {
